@@ -3,6 +3,7 @@ package checks
 import (
 	"fmt"
 	"math/rand"
+	"strings"
 
 	"verif/internal/core"
 )
@@ -146,9 +147,16 @@ func c13GenNested(r *rand.Rand) any {
 	return "scalar"
 }
 
-func c13NullCase(ctx *core.Ctx, ref core.CaseRef, r *rand.Rand) {
+func c13NullCase(ctx *core.Ctx, ref core.CaseRef, r *rand.Rand) { c13NullCaseP(ctx, ref, r, false) }
+
+// c13NullCaseP with pair = true tests TWO columns in one predicate: `<operand> IS NULL OR t IS NULL`,
+// `<operand> IS NOT NULL AND t IS NOT NULL`, ... (each test must look at its own column).
+func c13NullCaseP(ctx *core.Ctx, ref core.CaseRef, r *rand.Rand, pair bool) {
 	i := ref.Index
 	site := c13SiteNames[i%len(c13SiteNames)]
+	if pair && site == "having" {
+		site = "where"
+	}
 	i /= len(c13SiteNames)
 	op := []string{"IS NULL", "IS NOT NULL"}[i%2]
 	i /= 2
@@ -159,6 +167,10 @@ func c13NullCase(ctx *core.Ctx, ref core.CaseRef, r *rand.Rand) {
 		op = map[string]string{"IS NULL": pick(r, []string{"is null", "Is Null", "IS  NULL"}), "IS NOT NULL": pick(r, []string{"is not null", "Is Not Null", "IS NOT  NULL"})}[op]
 	}
 	isNot := len(op) > 8
+	conj := ""
+	if pair {
+		conj = pick(r, []string{"OR", "AND", "or", "And"})
+	}
 	n := 40 + r.Intn(40)
 	rows := make([]Row, 0, n+2)
 	want := make([]string, 0, n+2)
@@ -167,7 +179,17 @@ func c13NullCase(ctx *core.Ctx, ref core.CaseRef, r *rand.Rand) {
 		row["id"] = len(rows)
 		w := "-"
 		if null, judged := od.ref(row); judged {
-			if null != isNot {
+			first := null != isNot
+			if pair {
+				tv, ok := row["t"]
+				second := (!ok || tv == nil) != isNot
+				if strings.EqualFold(conj, "or") {
+					first = first || second
+				} else {
+					first = first && second
+				}
+			}
+			if first {
 				w = "T"
 				nT++
 			} else {
@@ -205,13 +227,20 @@ func c13NullCase(ctx *core.Ctx, ref core.CaseRef, r *rand.Rand) {
 			}
 		}
 	}
-	sql := c13Sites[site].sql(od.Expr, "$X "+op)
+	cond := "$X " + op
+	if pair {
+		cond = "$X " + op + " " + conj + " t " + op
+	}
+	sql := c13Sites[site].sql(od.Expr, cond)
 	cs := &c13Case{CaseRef: ref, Site: site, Op: op, Operand: od.Expr, SQL: sql, NTexts: len(rows)}
 	opAttr := "IS NULL"
 	if isNot {
 		opAttr = "IS NOT NULL"
 	}
 	base := map[string]string{"site": site, "op": opAttr, "operand": od.Name, "spelling": spelling}
+	if pair {
+		base["second_test"] = strings.ToUpper(conj) + " t " + opAttr
+	}
 	attrsOf := func(i int, exp, g string) map[string]string {
 		m := map[string]string{"expected": exp, "got": g, "value_kind": od.kind(rows[i])}
 		if len(g) > 6 && g[:6] == "other:" {
